@@ -135,6 +135,22 @@ CLAIMED = {
             "'#' line is a comment at any position. Program outputs are not decided.",
             "clap's argument parsing is trusted; " + TRUST,
             "DESIGN.md §3 C24"),
+    "C04": ("must-pass-through on the MIR of SymbolTable::resolve + pairing rules + closure-plumbing provenance",
+            "Decides structural necessary conditions of name resolution and capture: the enclosing table is consulted on "
+            "every path to 'undefined'; block depth and function/filter scopes are bracketed unconditionally; free symbols "
+            "are captured before the scope is left, loaded in order and counted into the Closure operand; the VM copies "
+            "exactly that many slots and GetFree/SetFree index them. Captured values, visibility across sibling blocks and "
+            "the depth passed to the outer table are not decided.",
+            "The lookup parameters (newest-first, depth <= current) are reported, not armed; " + TRUST,
+            "DESIGN.md §3 C04"),
+    "C11": ("partial evaluation of each builtin under every arity and argument-kind vector, compared both ways with the "
+            "documented acceptance table; registry agreement; arity-guard dominance (E1)",
+            "Decides, for the 23 named builtins x arities 0..4 x 23 kinds per position (805 cells), which calls can succeed "
+            "and which can only fail, against docs/language/builtins.md; that every args[k] is behind an arity test; that "
+            "errors are prefixed with the builtin's name; that the registry binds each name to its own function. The "
+            "round-trip and sortedness laws are value-level and not decided.",
+            "tables/doc_kinds.json is a transcription of the documentation (each row quotes its sentence); " + TRUST,
+            "DESIGN.md §3 C11"),
 }
 
 NOT_APPLICABLE = {
